@@ -55,6 +55,11 @@ from tqv import gen
 from tqv.core import HarnessError, Inconclusive, SubCheck, Violation, req
 from tqv.props import _c09_helpers as H
 
+# caller-owned arrays handed to the library must come back unchanged (see tqv/purity.py)
+from tqv.purity import install as _install_purity  # noqa: E402
+
+_install_purity('toqito.state_opt')
+
 PROPERTY = "C09"
 RULE = (
     "Games: referee dimension r in 1..3 and (A, B, X, Y) in 1..3 drawn independently (unequal allowed), question "
